@@ -104,7 +104,7 @@ def main():
             shutil.copy(p, os.path.join(dst, f))
     json.dump(meta, open(os.path.join(dst, "meta.json"), "w"), indent=1)
     # restore evidence written against the mutated tree
-    sh("git checkout -- evidence 2>/dev/null; git clean -fdq evidence/replays 2>/dev/null", cwd=V)
+    sh("git checkout -- evidence lean/IsalVerif/Gen lean/IsalVerif/GenProps tools/scrub_expected.json 2>/dev/null; git clean -fdq evidence/replays 2>/dev/null", cwd=V)
     print("stored", dst, "caught_by", meta["caught_by"])
     return 0
 
